@@ -179,6 +179,58 @@ def validate_once(spec, trace_path, sched, kfs=None, timeout=1200):
     raise ToolError(f"trace validation with {spec} broke:\n" + out[-3000:])
 
 
+SIMPLE_CFG = """SPECIFICATION TSpec
+{consts}CONSTRAINT Progress
+POSTCONDITION Accepted
+CHECK_DEADLOCK FALSE
+"""
+
+
+def validate_simple(run, spec, trace_path, consts="", marker='"e":"tcase"', label="", max_rejections=4, env=None):
+    """single-pass validation of a trace made of cases that each start with a marker line"""
+    t0 = time.time()
+    lines = open(trace_path).read().splitlines()
+    ncases = sum(1 for l in lines if marker in l)
+    remaining = lines
+    rej = 0
+    states = 0
+    tmp = trace_path + ".part"
+    while remaining:
+        with open(tmp, "w") as f:
+            f.write("\n".join(remaining) + "\n")
+        e = {"TRACE": tmp}
+        e.update(env or {})
+        rc, out = tlc(spec, SIMPLE_CFG.format(consts=consts), e, workers=1, timeout=1200, dfs=True, tag="tv")
+        gen, dist = parse_counts(out)
+        states += dist
+        if "No error has been found" in out:
+            break
+        m = re.search(r'"REJECTED_AT",\s*(\d+)', out)
+        if not m:
+            raise ToolError(f"trace validation with {spec} broke:\n" + out[-3000:])
+        n = int(m.group(1))
+        s = n - 1
+        while s > 0 and marker not in remaining[s]:
+            s -= 1
+        e_ = n
+        while e_ < len(remaining) and marker not in remaining[e_]:
+            e_ += 1
+        run.violation(spec, remaining[s:e_], n - s, label)
+        rej += 1
+        ncases -= 1
+        if rej >= max_rejections:
+            ncases -= sum(1 for l in remaining[e_:] if marker in l)
+            break
+        remaining = remaining[e_:]
+    if os.path.exists(tmp):
+        os.remove(tmp)
+    run.traces += max(ncases, 0)
+    run.stages.append({"stage": label or spec, "kind": "trace-validation", "spec": spec,
+                       "cases_accepted": max(ncases, 0), "rejections": rej, "validator_states": states,
+                       "wall_s": round(time.time() - t0, 1)})
+    return rej == 0
+
+
 def case_bounds(lines, n):
     """0-based [start, end] of the case containing 1-based line n"""
     start = n - 1
